@@ -60,6 +60,7 @@ def _explore(out, tier, seed, facts, replay):
     times = sample_times(rng, tier)
     # ---- Tie: calendar model vs implementation --------------------------------------------------
     exprs, expected = [], []
+    inputs_of = []          # per expression: the list of unix times (or lead times) it was evaluated on
     CH = 400
     impl_axes = {name: verif.axis.get(name) for name, _ in TIME_AXES}
     for k in range(0, len(times), CH):
@@ -67,6 +68,7 @@ def _explore(out, tier, seed, facts, replay):
         zl = "[" + "; ".join("(%d)" % t for t in chunk) + "]%Z"
         for name, fn in TIME_AXES:
             exprs.append("map (fun t => f_of_Z (%s t)) %s" % (fn, zl))
+            inputs_of.append(("-x %s" % name, chunk))
             try:
                 v = impl_axes[name].compute_from_times(np.array(chunk))
             except Exception as e:
@@ -85,6 +87,7 @@ def _explore(out, tier, seed, facts, replay):
                 v = [x * 3600 for x in v]
             expected.append([float(x) for x in v])
         exprs.append("map (fun t => f_of_Z (unixtime_to_date t)) %s" % zl)
+        inputs_of.extend([("unixtime_to_date", chunk), ("date_to_unixtime(unixtime_to_date)", chunk), ("date_to_datenum(unixtime_to_date)", chunk), ("datenum_to_date(day number)", chunk)])
         expected.append([float(verif.util.unixtime_to_date(t)) for t in chunk])
         exprs.append("map (fun t => f_of_Z (date_to_unixtime (unixtime_to_date t))) %s" % zl)
         expected.append([float(verif.util.date_to_unixtime(verif.util.unixtime_to_date(t))) for t in chunk])
@@ -94,6 +97,7 @@ def _explore(out, tier, seed, facts, replay):
         expected.append([float(verif.util.datenum_to_date(int(math.floor(t / 86400.0)))) for t in chunk])
     leads = [0, 1, 23.999, 24, 24.001, 47.5, 48, 240, 0.5, 71.999]
     exprs.append("map (fun l => f_of_Z (leadtimeday l)) [" + "; ".join("(%d)" % round(l * 1000) for l in leads) + "]%Z")
+    inputs_of.append(("-x leadtimeday (lead time in hours)", leads))
     expected.append([float(x) for x in verif.axis.Leadtimeday().compute_from_leadtimes(np.array(leads))])
     disagreements = []
     try:
@@ -103,6 +107,10 @@ def _explore(out, tier, seed, facts, replay):
             if not common.close_lists(g, e):
                 j = [x for x in range(min(len(g), len(e))) if not common.close(g[x], e[x])]
                 disagreements.append({"expr": exprs[i][:80], "index": j[:3], "model": [g[x] for x in j[:3]], "impl": [e[x] for x in j[:3]]})
+                if i < len(inputs_of) and j:
+                    what_, vals_ = inputs_of[i]
+                    out.violation("calendar:%s" % what_.split("(")[0].strip().replace("-x ", ""), "%s of %r is %r; the UTC calendar gives %r (time of day is compared in seconds)"
+                                  % (what_, vals_[j[0]], e[j[0]], g[j[0]]), {"what": what_, "input": vals_[j[0]], "implementation": e[j[0]], "calendar": g[j[0]]})
     except RuntimeError as ex:
         out.broken_obligation("tie:Model/Cal.v", str(ex)[-1500:])
     if disagreements:
